@@ -72,8 +72,16 @@ def program(draw: Any, n_obj: int | None = None, discrete_only: bool = False, ma
         "consts": [draw(st.integers(-2, 2)) for _ in range(n_obj)],
         "n_steps": draw(st.integers(0, max_steps)) if n_obj == 1 else 0,
         "step_gap": draw(st.sampled_from([1, 1, 2, 3])),
+        # order in which the steps are reported (storages may return them sorted or in report order)
+        "step_order": draw(st.sampled_from(["inc", "inc", "dec", "zigzag"])),
+        # the objective prunes itself after k reports in every / every 2nd / every 3rd trial (users do that with
+        # their own criteria): gives PRUNED trials with several reports whatever the pruner decides
+        "self_prune": draw(st.one_of(st.none(), st.tuples(st.integers(1, 4), st.integers(0, 2), st.sampled_from([1, 1, 2, 3])).map(list))),
         "slope": draw(st.sampled_from([-0.5, -0.25, 0.0, 0.25, 0.5])),
         "curve_on": draw(st.sampled_from(names)),
+        # odd steps additionally depend on a second parameter, so that trials rank differently at
+        # different steps
+        "curve_on2": draw(st.sampled_from(names)),
         # fail (raise ValueError, caught) when numeric(fail_on) mod 3 lands in fail_set
         "fail_on": draw(st.one_of(st.none(), st.sampled_from(names))),
         "fail_band": draw(st.integers(0, 4)),
@@ -126,10 +134,23 @@ def make_objective(prog: dict[str, Any], rec: Recorder | None = None, sign: list
             if dyadic:
                 base = math.floor(base * 8) / 8  # multiples of 1/8: exact percentile arithmetic
             base += bump
-            for s in range(prog["n_steps"]):
+            order = list(range(prog["n_steps"]))
+            n_rep = 0
+            if prog.get("step_order") == "dec":
+                order.reverse()
+            elif prog.get("step_order") == "zigzag":
+                order = order[1::2] + order[0::2]
+            for s in order:
                 step = s * prog["step_gap"]
                 v = base + prog["slope"] * s
+                if s % 2 and prog.get("curve_on2") in num:
+                    extra = num[prog["curve_on2"]]
+                    v += math.floor(extra * 8) / 8 if dyadic else extra
                 trial.report(sign[0] * v, step)
+                n_rep += 1
+                sp = prog.get("self_prune")
+                if sp is not None and n_rep >= sp[0] and trial.number % sp[2] == sp[1] % sp[2]:
+                    raise optuna.TrialPruned()
                 if trial.should_prune():
                     raise optuna.TrialPruned()
         return outs[0] if prog["n_obj"] == 1 else outs
